@@ -4,7 +4,7 @@ import os
 
 import core
 from corr.bloom import strategy
-from search.common import drive, keys_pool, make_twin, noise_touch, shrink_ops
+from search.common import drive, geometry_twin, keys_pool, make_twin, noise_touch, shrink_ops
 
 STRATS = ["fnv", "fnv", "md5", "sha256", "custom", "dint:fnvseed", "dint:sumlen", "dbytes:fnvle", "dbytes:chain"]
 
@@ -72,6 +72,8 @@ def check(case):
                         obj.add_alt(hs)
                         if hs != want:
                             return f"step {step}: add_alt changed the list of hashes it was given"
+                        if not obj.check_alt(want):
+                            return f"step {step}: check_alt with the very list of hashes ({len(want)} values, the filter uses {obj.number_hashes}) that add_alt was given says absent"
                         twin.add_alt(hs)
                         if not twin.check_alt(want) or not twin.check(op[1]):
                             return f"step {step}: a second filter given the same list of hashes does not report {op[1]!r}"
@@ -124,7 +126,8 @@ def check(case):
                 elif op[0] == "union":
                     if kind == "expanding":
                         continue
-                    other = BloomFilter(est_elements=case["est"], false_positive_rate=case["fpr"], hash_function=fn)
+                    tw = geometry_twin(case["est"], case["fpr"]) if step % 3 == 0 else None
+                    other = BloomFilter(est_elements=tw[0] if tw else case["est"], false_positive_rate=tw[1] if tw else case["fpr"], hash_function=fn)
                     for k in op[1]:
                         other.add(k)
                     res = obj.union(other) if step % 2 == 0 else other.union(obj)
